@@ -700,7 +700,7 @@ fn record(trace_path: &str, out_path: &str) {
     let mut m = Mon::default();
     let scale: u64 = std::env::var("VERIF_SCALE").ok().and_then(|x| x.parse().ok()).unwrap_or(if thorough { 10 } else { 1 });
     let (npat, nacl, ntok, nstr) = (300 * scale, 200 * scale, 400 * scale, 3000 * scale);
-    let maxdepth = if thorough { 6 } else { 5 };
+    let maxdepth = if thorough { 8 } else { 5 };
     let maxw = 12;
     let (mut lines, mut accepted_tok, mut accepted_str) = (0u64, 0u64, 0u64);
     let mut items: Vec<TextItem> = Vec::new();
